@@ -23,7 +23,7 @@ FINITE = [-3, -2, -1, 0, 1, 2, 3, 4, 5, 6]
 INT_VALS = [0, 3, 5]          # 0.0, 1.0, 2.0
 CAT_VALS = [0, 3]             # indices 0.0, 1.0
 OTHER_VAL = -77777
-NONE_V = [-1]
+NONE_V = [-999]
 
 ATTRS = [1, "a", 1.5, None, True, [1, 2], {"k": [1, {"z": None}]}, "", "ü☃", 1e300, -7, {"a": {}}]
 DATES = {1: datetime.datetime(2020, 1, 2, 3, 4, 5, 678901), 2: datetime.datetime(2021, 6, 7, 8, 9, 10, 11)}
